@@ -85,6 +85,10 @@ where
 		if t.tx_type == TxLogEntryType::TxReceived {
 			return Err(Error::TransactionAlreadyReceived(ret_slate.id.to_string()));
 		}
+		// a payment that was cancelled here stays cancelled, it is not received again
+		if t.tx_type == TxLogEntryType::TxReceivedCancelled {
+			return Err(Error::TransactionWasCancelled(ret_slate.id.to_string()));
+		}
 	}
 
 	ret_slate.tx = Some(Slate::empty_transaction());
